@@ -89,6 +89,12 @@ def run_guarded(prog, vec, n, p, real, guards, ign=False, sites=False):
             c_ = B.PrivValBool(guards[0])
             pinned()
             res = rt.guarded(c_)(body)()
+        elif real == "pre-ign":
+            # the program runs with error checking switched off GLOBALLY (before the region is entered)
+            rt.ignore_errors(True)
+            c_ = B.PrivValBool(guards[0])
+            pinned()
+            res = rt.guarded(c_)(body)()
         elif real == "nested":
             go, gi = B.PrivValBool(guards[0]), B.PrivValBool(guards[1])
             pinned()
@@ -118,6 +124,8 @@ def run_guarded(prog, vec, n, p, real, guards, ign=False, sites=False):
     except Exception as ex:  # noqa: BLE001
         r.status, r.exc, r.msg, r.value, r.mism = "raise", type(ex).__name__, str(ex)[:100], None, []
     finally:
+        if real == "pre-ign":
+            rt._ignore_errors = False
         if ign:
             rt._ignore_errors = False if real == "none" else rt._ignore_errors
     r.unsat = H.R.unsatisfied()
@@ -211,6 +219,18 @@ def _task(t):
         if not well_typed:
             st["ill_typed_groups"] += 1
         pend_raise = {}
+        # error checking switched off globally BEFORE a region with a TRUE guard is entered: the body behaves as the same
+        # body does with checking off and no guard (in particular it does not start raising again)
+        for vec in vecs:
+            ui = run_guarded(prog, vec, n, p, "none", (), ign=True)
+            gi_ = run_guarded(prog, vec, n, p, "pre-ign", (1,))
+            st["executions"] += 2
+            if gi_.exc == "NotASecret" or ui.exc == "NotASecret":
+                continue
+            if (gi_.status, gi_.exc) != (ui.status, ui.exc):
+                report("true-guard-not-transparent", "pre-ign", (1,), vec,
+                       "with error checking switched off globally, the body under a true guard gives %s/%s, without a guard %s/%s"
+                       % (gi_.status, gi_.exc, ui.status, ui.exc))
         for vec in vecs:
             us, uexc, uval = unguarded[vec]
             for real, guards in REALISATIONS:
